@@ -446,27 +446,24 @@ func borderImageSlice(_ *ComputedStyle, _ pr.KnownProp, _value pr.CssProperty) p
 }
 
 // Compute the “border-image-width“ property.
-func borderImageWidth(_ *ComputedStyle, _ pr.KnownProp, _value pr.CssProperty) pr.CssProperty {
-	values := _value.(pr.Values)
-	switch len(values) {
-	case 1:
-		return values.Repeat(4)
-	case 2:
-		return values.Repeat(2)
-	case 3:
-		values = append(values, values[1])
-	}
-	return values
+func borderImageWidth(computer *ComputedStyle, _ pr.KnownProp, _value pr.CssProperty) pr.CssProperty {
+	return borderImageLengths(computer, _value.(pr.Values))
 }
 
 // Compute the “border-image-outset“ property.
 func borderImageOutset(computer *ComputedStyle, _ pr.KnownProp, _value pr.CssProperty) pr.CssProperty {
-	values := _value.(pr.Values)
-	for i, value := range values {
-		if value.Unit == pr.Scalar {
+	return borderImageLengths(computer, _value.(pr.Values))
+}
+
+// make the lengths absolute (numbers, percentages and "auto" are kept) and expand to four values,
+// without writing into the declared value, which is shared by every element the rule matches
+func borderImageLengths(computer *ComputedStyle, declared pr.Values) pr.Values {
+	values := make(pr.Values, len(declared), 4)
+	for i, value := range declared {
+		if value.S == "auto" || value.Unit == pr.Scalar {
 			values[i] = value
 		} else {
-			values[i] = length_(computer, value, 0, false)
+			values[i] = length_(computer, value, -1, false)
 		}
 	}
 
